@@ -681,8 +681,13 @@ class M2Executor(Executor):
         ra = z3.And(a.pc[n:]) if a.pc[n:] else z3.BoolVal(True)
         rb = z3.And(b.pc[n:]) if b.pc[n:] else z3.BoolVal(True)
         m = a.fork()
-        m.pc = a.pc[:n] + [z3.Or(ra, rb)]
-        ca = VBool(ra)
+        # a fresh selector says which of the two paths was taken; the merged values are if-then-else terms over
+        # it.  This is sound whether or not the two suffixes are mutually exclusive (they are not when one path
+        # added no fact, e.g. a loop left by exhaustion vs. by break): a value of path a is only ever combined
+        # with the facts of path a.
+        sel = z3.Bool(fresh_name('took_a'))
+        m.pc = a.pc[:n] + [z3.Or(z3.And(sel, ra), z3.And(z3.Not(sel), rb))]
+        ca = VBool(sel)
 
         def mv(x, y, base):
             if x is None or y is None:
@@ -701,7 +706,7 @@ class M2Executor(Executor):
         m.heap = {}
         for k in set(a.heap) | set(b.heap):
             if k not in a.heap or k not in b.heap:
-                have, other, cond_have = (a, b, ca) if k in a.heap else (b, a, VBool(rb))
+                have, other, cond_have = (a, b, ca) if k in a.heap else (b, a, VBool(z3.Not(sel)))
                 if k not in have.written:
                     # lazily materialised by a read on one side only: the other side never touched the field, it
                     # still holds the same initial value there
